@@ -1,15 +1,26 @@
 pub mod model;
+pub mod table;
 
 use crate::json::J;
 use crate::Args;
 use std::path::Path;
 
-pub fn dispatch(cmd: &str, _args: &Args) -> i32 {
-    eprintln!("unknown command {cmd:?}; commands: model, replay");
-    2
+pub fn dispatch(cmd: &str, args: &Args) -> i32 {
+    match cmd {
+        "table" => table::cmd(args),
+        _ => {
+            eprintln!("unknown command {cmd:?}; commands: model, table, replay");
+            2
+        }
+    }
 }
 
-pub fn replay_other(engine: &str, _j: &J, _scratch: &Path) -> i32 {
-    eprintln!("replay: unknown engine {engine:?}");
-    2
+pub fn replay_other(engine: &str, j: &J, scratch: &Path) -> i32 {
+    match engine {
+        "table" => table::replay(j, scratch),
+        _ => {
+            eprintln!("replay: unknown engine {engine:?}");
+            2
+        }
+    }
 }
